@@ -33,6 +33,13 @@ pub fn run_child(bound: Option<usize>, max_secs: u64, f: impl Fn() + Send + Sync
     if std::env::var_os("LOOM_CHECKPOINT_FILE").is_none() {
         b.checkpoint_interval = 2000;
     }
+    // a failing execution (oracle violation or loom deadlock report) panics:
+    // record which schedule it was, so a re-run can checkpoint exactly there
+    let default_hook = std::panic::take_hook();
+    std::panic::set_hook(Box::new(move |info| {
+        eprintln!("AT-SCHEDULE {}", SCHEDULES.load(Ordering::Relaxed));
+        default_hook(info);
+    }));
     let start = Instant::now();
     b.check(move || {
         SCHEDULES.fetch_add(1, Ordering::Relaxed);
@@ -60,11 +67,17 @@ pub struct Job {
 #[derive(Debug)]
 pub enum ChildResult {
     Ok { schedules: u64, outcomes: BTreeMap<String, u64>, complete: bool, secs: f64 },
-    Violation { key: String, what: String },
+    Violation { key: String, what: String, schedule: u64 },
     Machinery(String),
 }
 
 fn classify(status: std::process::ExitStatus, stdout: &str, stderr: &str, deadlock_key: &str) -> ChildResult {
+    let schedule = stderr
+        .lines()
+        .filter_map(|l| l.strip_prefix("AT-SCHEDULE "))
+        .filter_map(|n| n.trim().parse::<u64>().ok())
+        .next()
+        .unwrap_or(0);
     if status.success() {
         for line in stdout.lines().rev() {
             if let Ok(v) = serde_json::from_str::<Value>(line) {
@@ -87,7 +100,7 @@ fn classify(status: std::process::ExitStatus, stdout: &str, stderr: &str, deadlo
     if let Some(line) = stderr.lines().find(|l| l.starts_with("ORACLE-VIOLATION")) {
         let rest = line.trim_start_matches("ORACLE-VIOLATION key=");
         let (key, what) = rest.split_once(" :: ").unwrap_or((rest, ""));
-        return ChildResult::Violation { key: key.to_string(), what: what.to_string() };
+        return ChildResult::Violation { key: key.to_string(), what: what.to_string(), schedule };
     }
     // engine-internal assertions are machinery errors, never verdicts
     for sig in [
@@ -106,6 +119,7 @@ fn classify(status: std::process::ExitStatus, stdout: &str, stderr: &str, deadlo
         return ChildResult::Violation {
             key: deadlock_key.to_string(),
             what: format!("a thread stayed blocked with every other thread finished (loom: {})", line.trim()),
+            schedule,
         };
     }
     let tail: Vec<&str> = stderr.lines().rev().take(12).collect();
@@ -119,7 +133,7 @@ pub fn spawn_child(
     prop: &str,
     tier: &str,
     job: &Job,
-    checkpoint: Option<&std::path::Path>,
+    checkpoint: Option<(&std::path::Path, u64)>,
     deadlock_key: &str,
 ) -> ChildResult {
     let exe = std::env::current_exe().expect("current_exe");
@@ -131,8 +145,8 @@ pub fn spawn_child(
         .arg(job.bound.map(|b| b.to_string()).unwrap_or_else(|| "none".into()))
         .arg(job.max_secs.to_string());
     cmd.env_remove("LOOM_CHECKPOINT_FILE");
-    if let Some(p) = checkpoint {
-        cmd.env("LOOM_CHECKPOINT_FILE", p).env("LOOM_CHECKPOINT_INTERVAL", "1");
+    if let Some((p, interval)) = checkpoint {
+        cmd.env("LOOM_CHECKPOINT_FILE", p).env("LOOM_CHECKPOINT_INTERVAL", interval.max(1).to_string());
     }
     match cmd.output() {
         Ok(o) => classify(
@@ -206,14 +220,15 @@ pub fn run_jobs(ctx: &crate::ctx::Ctx, tier: &str, jobs: Vec<Job>, deadlock_key:
                     "secs": (secs * 100.0).round() / 100.0, "outcomes": outcomes,
                 }));
             }
-            ChildResult::Violation { key, what } => {
-                // confirm (determinism) and leave a checkpoint at the failing execution
+            ChildResult::Violation { key, what, schedule } => {
+                // confirm (determinism: same verdict at the same schedule) and leave a loom
+                // checkpoint written just before the failing execution
                 let _ = std::fs::create_dir_all(&replay_dir);
                 let ck = replay_dir.join(format!("h{i}.loom-checkpoint.json"));
                 let _ = std::fs::remove_file(&ck);
-                let again = spawn_child(ctx.id, tier, &job, Some(&ck), deadlock_key);
+                let again = spawn_child(ctx.id, tier, &job, Some((&ck, schedule)), deadlock_key);
                 match again {
-                    ChildResult::Violation { key: k2, .. } if k2 == key => {}
+                    ChildResult::Violation { key: k2, schedule: s2, .. } if k2 == key && s2 == schedule => {}
                     other => ctx.machinery(format!(
                         "harness {} reported {key} but the confirming re-run gave {other:?} (nondeterministic harness)",
                         job.name
